@@ -22,7 +22,7 @@ pub static DEF: PropDef = PropDef {
     level: "fault_enumeration",
     engine: "split",
     rule: "sweep phase (fault enumeration): for generated old-shard datasets (2..5 chunks, rows below / at / above the split point) on both catalog backends, the fault-free split issues R object-store requests; one run per (request index 0..R-1) x {fail before effect, fail after effect, crash before, crash after}, each followed by the driver protocol with faults off (resume while a progress file exists, else restart the split if the old shard is still Active, at most 6 attempts, every attempt with a fresh catalog client and splitter); random phase: 2..3 nested interruptions (faults and crashes also inside resumed runs); the splitter's 10 s and 300 s sleeps run in virtual time; distinct = distinct (dataset, fault position/kind or decision sequence); non-trivial = completed AND at least one interruption fired",
-    quick_runs: 600,
+    quick_runs: 2000,
     thorough_runs: 20_000,
     run_cap_ms: 60_000,
     scen,
@@ -412,7 +412,7 @@ fn early_delete_monitor(old_paths: &[String], use_local: bool) {
 
 /// Fault-position sweep over every store request of the fault-free split.
 fn sweep_phase(co: &mut Coord) {
-    let n_w = if co.tier == "quick" { 4 } else { 60 };
+    let n_w = if co.tier == "quick" { 8 } else { 60 };
     let mut base = Vec::new();
     for i in 0..n_w as u64 {
         base.push(co.spec(3_000_000 + i, "sweep:999999:fail_before"));
